@@ -10,7 +10,7 @@ PENDING, RUNNING = 1, 2  # _ClientState members are encoded by their position in
 
 
 def register(R):
-    R.ghost(tasks_started="int", suspensions="int")
+    R.ghost(tasks_started="int", suspensions="int", handler_failures="int")
     R.module(ST)
     R.shape("ConditionModel", cls="Condition", fields={"held": "bool"})
     R.shape("TaskGroupModel", cls="TaskGroup", fields={})
@@ -124,6 +124,18 @@ def register_handler(R):
     )
     cqi, csi = "client_data._datagram_queue.items", "client_data._ClientData__state"
     gen = "request_handler_generator"
+    R.module("easynetwork/lowlevel/api_async/backend/abc.py")
+    R.assume("backend.timeout(delay) rejects a delay that is not a usable number (NaN, a non-number yielded by a handler) with ValueError / TypeError "
+             "before creating the scope (observed: asyncio backend raises ValueError('deadline is NaN'))")
+    R.ghost(bad_timeouts="int")
+    R.contract("AsyncBackend.timeout", variant="yielded", params={"delay": "xreal"}, result="CancelScopeModel", trusted=True,
+               ensures=["not result.caught", "result.raise_timeout", "ghost.bad_timeouts == old(ghost.bad_timeouts)"],
+               raises={"ValueError": ["ghost.bad_timeouts == old(ghost.bad_timeouts) + 1"], "TypeError": ["ghost.bad_timeouts == old(ghost.bad_timeouts) + 1"]},
+               modifies=["ghost.bad_timeouts"])
+    R.module("easynetwork/lowlevel/api_async/servers/datagram.py")
+    OWN = ("an-Exception-leaves-the-client-task-only-if-the-handler-generator-itself-raised-it (what the server's own code raises on this client's "
+           "behalf - an unusable yielded timeout, a crashing parser - is thrown INTO the handler)",
+           "implies(typeof(exc, 'Exception'), ghost.handler_failures > old(ghost.handler_failures))", "C17")
     inner_exit = [("the-running-task-stays-the-running-task", f"{csi} == {RUNNING}", "C16 C17"),
                   ("generator-accounting", "ghost.live_gens == old(ghost.live_gens) - 1", "C16 C17"),
                   ("no-handler-generator-left-running", f"{gen}.finished and {gen}.closed <= 1", "C16 C17"),
@@ -134,11 +146,13 @@ def register_handler(R):
         locals_types={"action": "opt[obj]", "timeout": "opt[xreal]", "datagram": "bytes"},
         requires=[("called-by-the-running-task", f"{csi} == {RUNNING}"), ("fresh-generator", f"not {gen}.finished and {gen}.closed == 0"),
                   ("a-datagram-is-waiting (a task is started only for a queued datagram)", f"len({cqi}) >= 1")],
-        loops={1: {"inv": [f"{csi} == {RUNNING}", f"not {gen}.finished", f"{gen}.closed == 0", "not client_data._queue_condition.held", "ghost.live_gens == old(ghost.live_gens)", "timeout == ghost.last_timeout"]}},
+        loops={1: {"inv": [f"{csi} == {RUNNING}", f"not {gen}.finished", f"{gen}.closed == 0", "not client_data._queue_condition.held", "ghost.live_gens == old(ghost.live_gens)", "timeout == ghost.last_timeout",
+                           "ghost.handler_failures >= old(ghost.handler_failures)"]}},
         ensures=inner_exit,
-        raises={"BaseException": inner_exit},
-        modifies=[cqi, csi, "client_data._queue_condition.held", f"{gen}.finished", f"{gen}.closed", "ghost.suspensions", "ghost.delivered", "ghost.live_gens", "ghost.last_timeout"],
-        env={"rely_havoc": [cqi], "rely_inv": [],
+        raises={"BaseException": inner_exit + [OWN]},
+        modifies=[cqi, csi, "client_data._queue_condition.held", f"{gen}.finished", f"{gen}.closed", "ghost.suspensions", "ghost.delivered", "ghost.live_gens", "ghost.last_timeout",
+                  "ghost.handler_failures"],
+        env={"rely_havoc": [cqi], "rely_inv": [], "callee_variant": {"AsyncBackend.timeout": "yielded"},
              "call_hints": {"AsyncBackend.timeout": [("the-wait-for-the-next-datagram-uses-exactly-the-timeout-the-handler-just-yielded", "arg('delay') == ghost.last_timeout", "C16")]}},
         tags="C16 C17",
     )
@@ -153,8 +167,9 @@ def register_handler(R):
                 "default_context": "ContextModel"},
         requires=[("a-task-is-pending-for-this-client", f"{csi} == {PENDING}"), ("with-a-datagram-waiting", f"len({cqi}) >= 1")],
         ensures=outer_exit,
-        raises={"BaseException": outer_exit},
-        modifies=[csi, cqi, "client_data._queue_condition.held", "ghost.tasks_started", "ghost.suspensions", "ghost.delivered", "ghost.live_gens", "ghost.last_timeout"],
+        raises={"BaseException": outer_exit + [OWN]},
+        modifies=[csi, cqi, "client_data._queue_condition.held", "ghost.tasks_started", "ghost.suspensions", "ghost.delivered", "ghost.live_gens", "ghost.last_timeout",
+                  "ghost.handler_failures"],
         tags="C16 C17",
     )
     cq, cs = "client_data._datagram_queue.items", "client_data._ClientData__state"
